@@ -17,7 +17,7 @@ import random
 import tempfile
 import time
 
-from . import evidence, findings, rfc5804
+from . import digestmd5, evidence, findings, rfc5804
 from .tlc import run_tlc, tla_val, BUILD
 
 VERIF = os.path.dirname(os.path.dirname(os.path.abspath(__file__)))
@@ -27,6 +27,11 @@ OPS = {"LISTSCRIPTS": ("listscripts", ()), "PUTSCRIPT": ("putscript", ("s", "kee
        "SETACTIVE": ("setactive", ("s",)), "GETSCRIPT": ("getscript", ("s",))}
 C10_CLAUSES = ("NoScriptCmdBeforeAuth", "NoCredsBeforeTLS", "MechFromPostTLSCaps")
 C16_CLAUSES = ("MechRight", "MechFromPostTLSCaps", "ConnectTrueWithoutOK", "ConnectNotTrueAfterOK")
+
+
+# (realm offered, nonce, qop-options) of the digest-challenge; all with charset=utf-8 and algorithm=md5-sess
+DIGEST_VARIANTS = [(b"r", b"abc", b"auth"), (None, b"OA6MG9tEQGm2hh", b"auth"),
+                   (b"example.org", b"x+/Yz0=", b"auth,auth-int"), (b"r", b"n-1", b"auth")]
 
 
 def caps_bytes(c):
@@ -94,13 +99,51 @@ def replay(task):
             cid = connid
             events.append(["call", "connect", bool(want), pref])
 
-            def mk_server(chan, cid=cid, srv=srv):
+            dm = {"step": 0, "rec": None}      # DIGEST-MD5 exchange in progress on this connection
+            variant = (len(login) + len(password) + cid) % len(DIGEST_VARIANTS)
+            dm_realm, dm_nonce, dm_qop = DIGEST_VARIANTS[variant]
+
+            def mk_server(chan, cid=cid, srv=srv, dm=dm):
                 def server(w, sock):
                     try:
                         items = rfc5804.decode(w)
                     except rfc5804.Malformed as ex:
                         events.append(["write", cid, chan, "MALFORMED", ""])
                         return b'NO "malformed"\r\n'
+                    if dm["step"] in (1, 2):
+                        # continuation of a DIGEST-MD5 exchange: one string, nothing else
+                        step = dm["step"]
+                        dm["step"] = 0
+                        events.append(["write", cid, chan, "CONT", ""])
+                        r = srv.get("auth2" if step == 1 else "auth3", "NO")
+                        if len(items) != 1 or items[0][0] != "cont":
+                            dm["rec"]["digest_problem"] = "DIGEST-MD5: step %d: expected one string, got %r" % (step + 1, items)
+                            events.append(["reply", cid, "CONT", "NO"])
+                            return b'NO "unexpected"\r\n'
+                        if step == 1:
+                            try:
+                                raw = base64.b64decode(items[0][1], validate=True)
+                            except Exception as e:   # noqa
+                                dm["rec"]["digest_problem"] = "DIGEST-MD5: response is not base64 (%s)" % e
+                                events.append(["reply", cid, "CONT", "NO"])
+                                return b'NO "bad base64"\r\n'
+                            prob, rsp = digestmd5.verify(raw, login, password, authz, dm_realm, dm_nonce, b"h")
+                            dm["rec"]["digest_response"] = raw.decode("latin-1")
+                            if prob:
+                                dm["rec"]["digest_problem"] = prob
+                                events.append(["reply", cid, "CONT", "NO"])
+                                return b'NO "authentication failed"\r\n'
+                            events.append(["reply", cid, "CONT", "challenge" if r == "OK" else r])
+                            if r == "OK":
+                                dm["step"] = 2
+                                return digestmd5.b64q(rsp)
+                            return react(r)
+                        if items[0][1] != b"":
+                            dm["rec"]["digest_problem"] = "DIGEST-MD5: step 3: expected an empty response, got %r" % items[0][1]
+                            events.append(["reply", cid, "CONT", "NO"])
+                            return b'NO "unexpected"\r\n'
+                        events.append(["reply", cid, "AUTHENTICATE" if r == "OK" else "CONT", r])
+                        return react(r)
                     out = None
                     first = True
                     for it in items:
@@ -126,8 +169,15 @@ def replay(task):
                             r = srv.get("auth", "NO")
                             st = r
                             if mech == "DIGEST-MD5":
-                                out = b'"' + base64.b64encode(b'realm="r",nonce="abc",qop="auth",algorithm=md5-sess,charset=utf-8') + b'"\r\n'
-                                st = "challenge"
+                                if len(items) != 1 or len(it[2]) != 1:
+                                    payloads[-1]["digest_problem"] = "DIGEST-MD5: AUTHENTICATE carries more than the mechanism name: %r" % (items,)
+                                if r == "OK":
+                                    out = digestmd5.b64q(digestmd5.challenge(dm_realm, dm_nonce, dm_qop))
+                                    st = "challenge"
+                                    dm["step"] = 1
+                                    dm["rec"] = payloads[-1]
+                                else:
+                                    out = react(r)
                             elif mech == "LOGIN":
                                 out = b'"VXNlcm5hbWU6"\r\n"UGFzc3dvcmQ6"\r\n' + (react(r) or b"") if r != "silence" else None
                             else:
@@ -260,7 +310,7 @@ def check_payload(p):
             if ident is not None and ident not in (login, authz):
                 return "OAUTHBEARER: identity %r is neither the login nor the authorisation id" % ident
         elif mech == "DIGEST-MD5":
-            return None       # decoded in the dedicated driver (multi-step); here only the mechanism choice
+            return p.get("digest_problem")      # verified step by step by the scripted server (harness/digestmd5.py)
         else:
             return "unknown mechanism %r" % mech
     except Exception as e:   # noqa
@@ -372,7 +422,8 @@ def c16_configs(tier, seed):
 
 
 CREDS = [("user", "pass", ""), ("user", "pass", "admin"), ("üser@exämple.org", "pässwörd☃", ""),
-         ("a,b=c", 'p"q r', "z,=y"), ("u", "", "u2"), ("user name", "p=,\\", ""), ("日本", "tok.en-123_~+/=", "authz ü")]
+         ("a,b=c", 'p"q r', "z,=y"), ("u", "", "u2"), ("user name", "p=,\\", ""), ("日本", "tok.en-123_~+/=", "authz ü"),
+         ('he said "hi"\\', "p:w", 'a"z\\'), ("u:v", "ÿþ latin1 only", "")]
 
 
 def run(prop, tier, seed):
